@@ -41,6 +41,8 @@ THEOREMS = [
     "Optyx.Props.DegreeTie.degree_step",
     "Optyx.Props.DegreeTie.vecDegree_step",
     "Optyx.Props.DegreeTie.step_unique",
+    "Optyx.Props.DegreeTie.step_eq",
+    "Optyx.Props.DegreeTie.degIterFrame_text",
     "Optyx.Props.PinsC04.anchors",
 ]
 ASSUMPTIONS = [
